@@ -273,7 +273,6 @@ class RouteCQC:
         """
         two_qubit_circuit = circuits.Circuit()
         single_qubit_ops: list[list[cirq.Operation]] = []
-
         # Latest timestep that measured or used each key: an operation sharing a key with an earlier
         # one must not be scheduled before it (timesteps only follow the two-qubit gates).
         key_timestep: dict[cirq.MeasurementKey, int] = {}
@@ -300,7 +299,16 @@ class RouteCQC:
                     if len(circuit.moments) == i + 1:
                         single_qubit_ops[timestep].append(op)
                     elif key in ('', default_key):
-                        single_qubit_ops[timestep].extend(ops.measure(qubit) for qubit in op.qubits)
+                        if op.gate.confusion_map:  # type: ignore[union-attr]
+                            raise ValueError(
+                                'Intermediate measurements on three or more qubits '
+                                'with a confusion map are not supported'
+                            )
+                        mask = op.gate.full_invert_mask()  # type: ignore[union-attr]
+                        single_qubit_ops[timestep].extend(
+                            ops.measure(qubit, invert_mask=(True,)) if invert else ops.measure(qubit)
+                            for qubit, invert in zip(op.qubits, mask)
+                        )
                     else:
                         raise ValueError(
                             'Intermediate measurements on three or more qubits '
